@@ -8,20 +8,12 @@ SPEC = '''
     + leaf_post('parse_day_post', 'Option<u8>', 5, 'x == opt_ne_u8(v, 0)') \
     + leaf_post('parse_hour_post', 'u8', 5, 'x == v') \
     + leaf_post('parse_minsec_post', 'Option<u8>', 6, 'x == opt_ne_u8(v, 60)') \
-    + leaf_post('message_type_bits_post', 'u8', 6, 'x == v && x < 64', base=True) + '''
+    + leaf_post('message_type_bits_post', 'u8', 6, 'x == v && x < 64', extra='\n    // instance for a fresh cursor (no `at` term exists yet to trigger the quantifier)\n    &&& (data.1 == 0 ==> if 8 * data.0@.len() >= 6 { r is Ok && r->Ok_0.1 == fld(data.0@, 0, 6) && r->Ok_0.1 < 64 } else { r is Err })') + '''
 /// the trimmed 6-bit ASCII decoding of n characters starting at bit p (meaning given in K, see C13)
 pub uninterp spec fn text6(orig: Seq<u8>, p: int, n: int) -> Seq<char>;
 
-pub open spec fn text_post(input: (&[u8], usize), size: int, r: nom::IResult<(&[u8], usize), AsciiString>) -> bool {
-    &&& leaf_ok(input, 6 * (size / 6), r)
-    &&& forall|orig: Seq<u8>, p: int| #[trigger] at(orig, input, p) && r is Ok ==> r->Ok_0.1@ == text6(orig, p, size / 6)
-}
-
-pub open spec fn signed_post(input: (&[u8], usize), len: int, r: nom::IResult<(&[u8], usize), i32>) -> bool {
-    &&& leaf_ok(input, len, r)
-    &&& forall|orig: Seq<u8>, p: int| #[trigger] at(orig, input, p) && r is Ok ==> r->Ok_0.1 as int == sext(fld(orig, p, len), len)
-}
-
+''' + leaf_post('text_post', 'AsciiString', '6 * (size / 6)', 'x@ == text6(orig, p, size / 6)', params='size: int, ', cur='input') \
+    + leaf_post('signed_post', 'i32', 'len', 'x as int == sext(v, len)', params='len: int, ', cur='input') + '''
 pub open spec fn message_type_post(data: &[u8], r: nom::IResult<&[u8], u8>) -> bool {
     &&& (r is Ok <==> data@.len() >= 1)
     &&& (r is Err ==> is_error(r))
